@@ -229,6 +229,13 @@ fn run_one(sc: &Value) {
             ..Default::default()
         }));
     }
+    // one page of the target refuses to become writable, for good (its first page, or only the second one of an entry that
+    // straddles a boundary): the installation must fail loudly and leave every byte as it was
+    match s(sc, "deny").as_str() {
+        "first" => interpose::DENY_PAGE.store(page(func_addr), SeqCst),
+        "second" => interpose::DENY_PAGE.store(page(func_addr) + 4096, SeqCst),
+        _ => {}
+    }
     if sc.get("prime_bool").and_then(|x| x.as_bool()).unwrap_or(false) {
         // earlier in the same process, an ordinary function of the program was forced to the same value, in an injector
         // lifetime of its own (not recorded: what follows must not depend on it)
@@ -265,6 +272,7 @@ fn run_one(sc: &Value) {
     }));
     interpose::set_policy(None);
     interpose::QUIET_FAILS.store(false, SeqCst);
+    interpose::DENY_PAGE.store(0, SeqCst);
     watch::diff_all("install-end");
     let entry = unsafe { std::slice::from_raw_parts(func_addr as *const u8, 16) }.to_vec();
     let tramp = interpose::OWNED.lock().unwrap().last().map(|x| x.0).unwrap_or(0);
@@ -304,9 +312,9 @@ fn run_one(sc: &Value) {
     emit(json!({"ev":"Called","phase":"dropped","res":call_stub(func_addr)}));
     if prologue == "selfmod" && foff + 36 <= fa.len {
         // the restored function runs as before: it can still update the state it keeps next to its code
-        let c0 = unsafe { *((func_addr + 32) as *const u32) };
+        let c0 = unsafe { std::ptr::read_unaligned((func_addr + 32) as *const u32) };
         let r = call_stub(func_addr);
-        let c1 = unsafe { *((func_addr + 32) as *const u32) };
+        let c1 = unsafe { std::ptr::read_unaligned((func_addr + 32) as *const u32) };
         emit(json!({"ev":"Neighbour","which":"own-state-after-drop","res": if r == ORIG_ID && c1 == c0 + 1 { ORIG_ID } else { 0 },"want":ORIG_ID}));
     }
     if has_next && body_addr == 0 {
